@@ -214,7 +214,84 @@ Variables lp rp : byte.
 Definition leaf_or (s : str) : option node :=
   match trim is_sp s with [] => None | t => Some (NLeaf t) end.
 
-Fixpoint parse (fuel : nat) (input : str) (nested : bool) {struct fuel} : res (node * str * bool (* true = NO_COMBINATIONS flag *)) :=
+Definition pres := res (node * str * bool).      (* node, (possibly rewritten) input, NO_COMBINATIONS flag *)
+
+(* one side (left or right operand) of a complete combination *)
+Definition side (rec : str -> pres) (s : str) : res (option node) :=
+  match detect (S (length s)) s lp rp with
+  | Err e => Err e | Panic n => Panic n | OutOfFuel => OutOfFuel
+  | Ok (lm', s') =>
+    if Nat.eqb (nlevels lm') 0 then
+      match leaf_or s' with None => Err EMPTY_LEAF | Some n => Ok (Some n) end
+    else
+      match rec s' with
+      | Err e => Err e | Panic n => Panic n | OutOfFuel => OutOfFuel
+      | Ok (NEmpty, s'', _) => Ok (leaf_or s'')
+      | Ok (n, _, _) => Ok (Some n)
+      end
+  end.
+
+(* the node for one complete boundary *)
+Definition build (rec : str -> pres) (input : str) (lm : list (list bnd)) (level idx : nat) (b : bnd) : res node :=
+  let '(shl, shr) := shared input lm level idx in
+  let o := match bOpVal b with Some o => o | None => AND end in
+  let left := slice input (bL b) (bOp b) in
+  let right := slice input (bOp b + op_len o + 2) (bR b) in
+  match side rec left with
+  | Err e => Err e | Panic n => Panic n | OutOfFuel => OutOfFuel
+  | Ok ln =>
+    match side rec right with
+    | Err e => Err e | Panic n => Panic n | OutOfFuel => OutOfFuel
+    | Ok rn => Ok (NComb o ln rn shl shr)
+    end
+  end.
+
+Fixpoint over_idx (rec : str -> pres) (input : str) (lm : list (list bnd)) (nested : bool)
+    (level : nat) (es : list bnd) (idx nall : nat) (acc : list (nat * node))
+    : res (list (nat * node) * option node * bool) :=
+  match es with
+  | [] => Ok (acc, None, false)
+  | b :: es' =>
+    if bComplete b then
+      match build rec input lm level idx b with
+      | Err e => Err e | Panic n => Panic n | OutOfFuel => OutOfFuel
+      | Ok nd =>
+        if negb nested || Nat.ltb 1 nall then
+          match over_idx rec input lm nested level es' (S idx) nall (acc ++ [(bL b, nd)]) with
+          | Ok (acc', early, _) => Ok (acc', early, true)
+          | x => x
+          end
+        else Ok (acc, Some nd, true)
+      end
+    else over_idx rec input lm nested level es' (S idx) nall acc
+  end.
+
+Fixpoint over_lvl (rec : str -> pres) (input : str) (lm : list (list bnd)) (nested : bool)
+    (levels : list (list bnd)) (level : nat) (acc : list (nat * node)) : res (list (nat * node) * option node) :=
+  match levels with
+  | [] => Ok (acc, None)
+  | es :: rest =>
+    match over_idx rec input lm nested level es 0 (length es) acc with
+    | Err e => Err e | Panic n => Panic n | OutOfFuel => OutOfFuel
+    | Ok (acc', Some nd, _) => Ok (acc', Some nd)
+    | Ok (acc', None, true) => Ok (acc', None)
+    | Ok (acc', None, false) => over_lvl rec input lm nested rest (S level) acc'
+    end
+  end.
+
+Definition finish (input : str) (r : res (list (nat * node) * option node)) : pres :=
+  match r with
+  | Err e => Err e | Panic n => Panic n | OutOfFuel => OutOfFuel
+  | Ok (_, Some nd) => Ok (nd, input, false)
+  | Ok (acc, None) =>
+    match acc with
+    | [] => Ok (NEmpty, input, false)
+    | [(_, nd)] => Ok (nd, input, false)
+    | _ => Ok (fold_left (fun t kn => combine t (snd kn) WAND) acc NEmpty, input, false)
+    end
+  end.
+
+Fixpoint parse (fuel : nat) (input : str) (nested : bool) {struct fuel} : pres :=
   match fuel with
   | 0 => OutOfFuel
   | S f =>
@@ -223,69 +300,7 @@ Fixpoint parse (fuel : nat) (input : str) (nested : bool) {struct fuel} : res (n
     | Err e => Err e | Panic n => Panic n | OutOfFuel => OutOfFuel
     | Ok (lm, input) =>
       if Nat.eqb (nlevels lm) 0 then Ok (NLeaf (trim is_sp input), trim is_sp input, true) else
-      let side (s : str) : res (option node) :=
-        match detect (S (length s)) s lp rp with
-        | Err e => Err e | Panic n => Panic n | OutOfFuel => OutOfFuel
-        | Ok (lm', s') =>
-          if Nat.eqb (nlevels lm') 0 then
-            match leaf_or s' with None => Err EMPTY_LEAF | Some n => Ok (Some n) end
-          else
-            match parse f s' true with
-            | Err e => Err e | Panic n => Panic n | OutOfFuel => OutOfFuel
-            | Ok (NEmpty, s'', _) => Ok (leaf_or s'')
-            | Ok (n, _, _) => Ok (Some n)
-            end
-        end in
-      (* iterate over levels 0..nlevels, indices *)
-      let fix over_idx (level : nat) (es : list bnd) (idx : nat) (nall : nat) (acc : list (nat * node))
-          : res (list (nat * node) * option node (* early return *) * bool (* any complete *)) :=
-        match es with
-        | [] => Ok (acc, None, false)
-        | b :: es' =>
-          if bComplete b then
-            let '(shl, shr) := shared input lm level idx in
-            let o := match bOpVal b with Some o => o | None => AND end in
-            let left := slice input (bL b) (bOp b) in
-            let right := slice input (bOp b + op_len o + 2) (bR b) in
-            match side left with
-            | Err e => Err e | Panic n => Panic n | OutOfFuel => OutOfFuel
-            | Ok ln =>
-              match side right with
-              | Err e => Err e | Panic n => Panic n | OutOfFuel => OutOfFuel
-              | Ok rn =>
-                let nd := NComb o ln rn shl shr in
-                if negb nested || Nat.ltb 1 nall then
-                  match over_idx level es' (S idx) nall (acc ++ [(bL b, nd)]) with
-                  | Ok (acc', early, _) => Ok (acc', early, true)
-                  | x => x
-                  end
-                else Ok (acc, Some nd, true)
-              end
-            end
-          else over_idx level es' (S idx) nall acc
-        end in
-      let fix over_lvl (levels : list (list bnd)) (level : nat) (acc : list (nat * node)) : res (list (nat * node) * option node) :=
-        match levels with
-        | [] => Ok (acc, None)
-        | es :: rest =>
-          match over_idx level es 0 (length es) acc with
-          | Err e => Err e | Panic n => Panic n | OutOfFuel => OutOfFuel
-          | Ok (acc', Some nd, _) => Ok (acc', Some nd)
-          | Ok (acc', None, true) => Ok (acc', None)
-          | Ok (acc', None, false) => over_lvl rest (S level) acc'
-          end
-        end in
-      match over_lvl lm 0 [] with
-      | Err e => Err e | Panic n => Panic n | OutOfFuel => OutOfFuel
-      | Ok (_, Some nd) => Ok (nd, input, false)
-      | Ok (acc, None) =>
-        (* orderMap keyed by Left: later same key overwrites; iterate ascending key *)
-        match acc with
-        | [] => Ok (NEmpty, input, false)
-        | [(_, nd)] => Ok (nd, input, false)
-        | _ => Ok (fold_left (fun t kn => combine t (snd kn) WAND) acc NEmpty, input, false)
-        end
-      end
+      finish input (over_lvl (fun s => parse f s true) input lm nested lm 0 [])
     end
   end.
 End Parse.
